@@ -13,11 +13,11 @@
   (4) evaluation preserves the 64-bit range invariant;
   (5) REFINEMENT: for every expression, store and request (in-range literals and store, well-formed
       patterns) the Go evaluator returns exactly the value the specification defines, and fails exactly
-      when the specification fails — unconditionally for the specification instantiated with the Go
-      `toDate`/`toTime`, and for the real specification whenever no `toDate`/`toTime` call is applied
-      to a negative datetime that is not day-aligned;
-  (6) that last hypothesis cannot be dropped: `toDate` / `toTime` on such datetimes is a genuine defect
-      of cedar-go (Go `%` truncates, the specification floors) — counterexamples below;
+      when the specification fails (`C01_eval_refines_spec`, no further hypothesis);
+  (6) `toDate` / `toTime`: the Go computation (truncated `%` lifted into `[0, day)`, then
+      `checkedSubI64`) IS the specification's floor on every 64-bit datetime, overflow error included
+      (`C01_goDates_eq_spec`).  Before the repair of the known finding `todate-totime-negative-truncation`
+      the Go code truncated toward zero; the three witnesses of that defect are kept as regression examples;
   (7) the regenerated extension table of the Go source equals the model's.
 
   The refinement relation `Refines impl spec` is: `impl = spec`, or `spec` is an error and `impl` is a
@@ -103,55 +103,50 @@ theorem C01_eval_preserves_range (e : Expr) (env : Env) (v : Value) (hwf : env.W
     (h : eval e env = .ok v) : v.WF :=
   eval_wf e env v hwf hl h
 
-/-! ### (5) Refinement
+/-! ### (5) Refinement -/
 
-  FULL STATEMENT (does not hold for the unchanged code, see (6)):
-    `theorem C01_eval_refines_spec (e env) (hwf : env.WF) (hl : e.LitsWF) (hp : e.PatternsWF) :
-        Refines (eval e env) (Spec.evaluate e env)`
--/
+/-- **Refinement against the Cedar specification**, full strength: for EVERY expression and environment
+    (in-range literals and store, `NewPattern`-shaped patterns) the Go evaluator returns the value the
+    specification's `evaluate` defines and reports an error exactly when the specification fails.
+    No hypothesis about `toDate` / `toTime` any more: the repaired Go code floors, as the specification does. -/
+theorem C01_eval_refines_spec (e : Expr) (env : Env) (hwf : env.WF) (hl : e.LitsWF) (hp : e.PatternsWF) :
+    Refines (eval e env) (Spec.evaluate e env) :=
+  eval_refines_spec e env hwf hl hp
 
-/-- The Go evaluator refines the specification in which ONLY `toDate` / `toTime` are replaced by what the Go
-    code computes (`goDates`): every other construct — arithmetic, short-circuit operators, equality,
-    ordering, sets, records, `like`, `has`, attribute and tag access, `is`, `in`, and all other decimal,
-    ipaddr, datetime and duration functions — follows the specification, for every expression and environment. -/
+/-- The same against the specification in which `toDate` / `toTime` are replaced by the literal Go
+    computation (`goDates`: `checkedSub t (millisSinceMidnight t)` / `millisSinceMidnight t`): the form in
+    which the induction is carried out; `C01_goDates_eq_spec` bridges to the specification. -/
 theorem C01_eval_refines_spec_modulo_toDate (e : Expr) (env : Env) (hwf : env.WF) (hl : e.LitsWF)
     (hp : e.PatternsWF) : Refines (eval e env) (evaluateWith goDates e env) :=
   eval_refines_goDates e env hwf hl hp
 
-/-- The Go date projections agree with the specification's EXACTLY on the datetimes that are
-    non-negative or a whole number of days: the defect is confined to the complement. -/
-theorem C01_goDates_agree_iff (t : Int) (ht : InI64 t) :
-    (goDates.toDate t = Spec.floorDate t ↔ (0 ≤ t ∨ t % 86400000 = 0)) ∧
-    (goDates.toTime t = Spec.floorTime t ↔ (0 ≤ t ∨ t % 86400000 = 0)) :=
-  ⟨goToDate_eq_iff t ht, goToTime_eq_iff t⟩
+/-- The Go date projections are the specification's floor functions on EVERY 64-bit datetime: same
+    midnight / same time of day in `[0, 86399999]`, and `toDate` reports `overflow` exactly when the
+    floored instant `86400000 · ⌊t / 86400000⌋` is below the 64-bit range. -/
+theorem C01_goDates_eq_spec (t : Int) (ht : InI64 t) :
+    goDates.toDate t = Spec.floorDate t ∧ goDates.toTime t = Spec.floorTime t :=
+  ⟨goToDate_eq t ht, goToTime_eq t⟩
 
-/-- **Refinement against the Cedar specification** (partial: the hypothesis `hd` excludes exactly the
-    known `toDate`/`toTime` defect — no `toDate`/`toTime` call in `e` has an argument that evaluates to a
-    negative datetime that is not day-aligned).  Same value; an error exactly when the specification fails. -/
-theorem C01_eval_refines_spec_partial (e : Expr) (env : Env) (hwf : env.WF) (hl : e.LitsWF) (hp : e.PatternsWF)
-    (hd : e.ToDateSafe env) : Refines (eval e env) (Spec.evaluate e env) :=
-  eval_refines_spec e env hwf hl hp hd
-
-/-- syntactic corollary: expressions that do not mention `toDate` / `toTime` -/
-theorem C01_eval_refines_spec_no_toDate (e : Expr) (env : Env) (hwf : env.WF) (hl : e.LitsWF) (hp : e.PatternsWF)
-    (hd : e.NoToDateToTime) : Refines (eval e env) (Spec.evaluate e env) :=
-  eval_refines_spec e env hwf hl hp (Expr.All_mono (fun x hx => safe_of_noDateCall env x hx) e hd)
+/-- Go's `millisSinceMidnight` (truncated `%`, plus one day when negative) is the Euclidean remainder -/
+theorem C01_millisSinceMidnight_spec (t : Int) :
+    millisSinceMidnight t = t % 86400000 ∧ 0 ≤ millisSinceMidnight t ∧ millisSinceMidnight t < 86400000 := by
+  rw [millisSinceMidnight_eq]; omega
 
 /-- the evaluator yields exactly the values the specification defines … -/
 theorem C01_eval_ok_iff_spec_ok (e : Expr) (env : Env) (hwf : env.WF) (hl : e.LitsWF) (hp : e.PatternsWF)
-    (hd : e.ToDateSafe env) (v : Value) : eval e env = .ok v ↔ Spec.evaluate e env = .ok v :=
-  (eval_refines_spec e env hwf hl hp hd).ok_iff v
+    (v : Value) : eval e env = .ok v ↔ Spec.evaluate e env = .ok v :=
+  (eval_refines_spec e env hwf hl hp).ok_iff v
 
 /-- … and reports an error exactly when the specification says evaluation fails -/
-theorem C01_eval_error_iff_spec_error (e : Expr) (env : Env) (hwf : env.WF) (hl : e.LitsWF) (hp : e.PatternsWF)
-    (hd : e.ToDateSafe env) : (∃ k, eval e env = .error k) ↔ (∃ k, Spec.evaluate e env = .error k) :=
-  (eval_refines_spec e env hwf hl hp hd).error_iff
+theorem C01_eval_error_iff_spec_error (e : Expr) (env : Env) (hwf : env.WF) (hl : e.LitsWF) (hp : e.PatternsWF) :
+    (∃ k, eval e env = .error k) ↔ (∃ k, Spec.evaluate e env = .error k) :=
+  (eval_refines_spec e env hwf hl hp).error_iff
 
 /-- the error kind is the specification's as well, unless cedar-go reports `type` / `unspecified` -/
 theorem C01_eval_eq_spec_unless_type_error (e : Expr) (env : Env) (hwf : env.WF) (hl : e.LitsWF) (hp : e.PatternsWF)
-    (hd : e.ToDateSafe env) (h1 : eval e env ≠ .error .type) (h2 : eval e env ≠ .error .unspecified) :
+    (h1 : eval e env ≠ .error .type) (h2 : eval e env ≠ .error .unspecified) :
     eval e env = Spec.evaluate e env :=
-  (eval_refines_spec e env hwf hl hp hd).eq_of_not_type h1 h2
+  (eval_refines_spec e env hwf hl hp).eq_of_not_type h1 h2
 
 /-- `Refines` cannot be strengthened to equality of error kinds: with two faulty operands cedar-go
     reports the left operand's type error, the specification the right operand's overflow. -/
@@ -171,46 +166,59 @@ theorem C01_spec_isIn_desugars (e : Expr) (ty : String) (r : Expr) (env : Env) :
     | error k => cases h3 : Spec.applyIs ty v <;> simp [bind, Except.bind, h3]
     | ok w => cases h3 : Spec.applyIs ty v <;> simp [bind, Except.bind, h3]
 
-/-! ### (6) The known defect: `toDate` / `toTime` on negative, non-day-aligned datetimes -/
+/-! ### (6) Regression: the witnesses of the repaired defect `todate-totime-negative-truncation`
 
-/-- `datetime(-1ms).toDate()`: cedar-go 1970-01-01 (0 ms), specification 1969-12-31 (−86400000 ms) -/
-theorem C01_toDate_counterexample :
-    eval (.call "toDate" [.lit (.datetime (-1))]) emptyEnv = .ok (.datetime 0) ∧
+  Before the repair cedar-go computed `ms - ms % MillisPerDay` / `ms % MillisPerDay` with Go's truncating
+  `%`; these three inputs were `C01_toDate_counterexample`, `C01_toTime_counterexample` and
+  `C01_toDate_overflow_counterexample` (and the first one `C01_eval_refines_spec_counterexample`).  The
+  model of the repaired code and the specification now agree on each of them; the harness oracle
+  (harness/cmd/vh/c01_spec.go) still replays them on the Go code. -/
+
+/-- `datetime(-1ms).toDate()` = 1969-12-31 (−86400000 ms) in both (was 1970-01-01 in cedar-go) -/
+example :
+    eval (.call "toDate" [.lit (.datetime (-1))]) emptyEnv = .ok (.datetime (-86400000)) ∧
     Spec.evaluate (.call "toDate" [.lit (.datetime (-1))]) emptyEnv = .ok (.datetime (-86400000)) :=
   ⟨by rfl, by
     simp [Spec.evaluate, evaluateWith, ofName_toDate, Spec.evaluateList, Spec.partialErrorName, Spec.ExtFun.arity,
       Spec.call, Spec.cedarDates, Spec.floorDate, bind, Except.bind, InI64, minI64, maxI64]⟩
 
-/-- `datetime(-1ms).toTime()`: cedar-go −1 ms, specification 86399999 ms -/
-theorem C01_toTime_counterexample :
-    eval (.call "toTime" [.lit (.datetime (-1))]) emptyEnv = .ok (.duration (-1)) ∧
+/-- `datetime(-1ms).toTime()` = 86399999 ms in both (was −1 ms in cedar-go) -/
+example :
+    eval (.call "toTime" [.lit (.datetime (-1))]) emptyEnv = .ok (.duration 86399999) ∧
     Spec.evaluate (.call "toTime" [.lit (.datetime (-1))]) emptyEnv = .ok (.duration 86399999) :=
   ⟨by rfl, by
     simp [Spec.evaluate, evaluateWith, ofName_toTime, Spec.evaluateList, Spec.partialErrorName, Spec.ExtFun.arity,
       Spec.call, Spec.cedarDates, Spec.floorTime, bind, Except.bind]⟩
 
-/-- `datetime(MinInt64 ms).toDate()`: cedar-go returns a value, the specification fails (the floored
-    instant is below the 64-bit range) -/
-theorem C01_toDate_overflow_counterexample :
-    eval (.call "toDate" [.lit (.datetime minI64)]) emptyEnv = .ok (.datetime (-9223372036828800000)) ∧
+/-- `datetime(MinInt64 ms).toDate()` fails with `overflow` in both (cedar-go used to return
+    −9223372036828800000 ms): the floored instant is below the 64-bit range -/
+example :
+    eval (.call "toDate" [.lit (.datetime minI64)]) emptyEnv = .error .overflow ∧
     Spec.evaluate (.call "toDate" [.lit (.datetime minI64)]) emptyEnv = .error .overflow :=
   ⟨by rfl, by
     simp [Spec.evaluate, evaluateWith, ofName_toDate, Spec.evaluateList, Spec.partialErrorName, Spec.ExtFun.arity,
       Spec.call, Spec.cedarDates, Spec.floorDate, bind, Except.bind, InI64, minI64, maxI64]⟩
 
-/-- hence the full refinement statement fails on the unchanged code (all other hypotheses hold) -/
-theorem C01_eval_refines_spec_counterexample :
-    ∃ (e : Expr) (env : Env), env.WF ∧ e.LitsWF ∧ e.PatternsWF ∧ ¬ Refines (eval e env) (Spec.evaluate e env) := by
-  refine ⟨.call "toDate" [.lit (.datetime (-1))], emptyEnv, ?_, ?_, ?_, ?_⟩
-  · exact ⟨by simp [emptyEnv, Value.WF], by simp [emptyEnv, Value.WF], by simp [emptyEnv, Value.WF],
+/-- … while the first representable midnight and the last millisecond still succeed -/
+example :
+    eval (.call "toDate" [.lit (.datetime (-9223372036828800000))]) emptyEnv = .ok (.datetime (-9223372036828800000)) ∧
+    eval (.call "toDate" [.lit (.datetime (-9223372036828800001))]) emptyEnv = .error .overflow ∧
+    eval (.call "toDate" [.lit (.datetime maxI64)]) emptyEnv = .ok (.datetime 9223372036828800000) ∧
+    eval (.call "toTime" [.lit (.datetime minI64)]) emptyEnv = .ok (.duration 60424192) := ⟨by rfl, by rfl, by rfl, by rfl⟩
+
+/-- the former witness of `C01_eval_refines_spec_counterexample` satisfies every hypothesis of
+    `C01_eval_refines_spec`, and the conclusion holds for it with EQUAL results -/
+example :
+    emptyEnv.WF ∧ (Expr.call "toDate" [.lit (.datetime (-1))]).LitsWF ∧ (Expr.call "toDate" [.lit (.datetime (-1))]).PatternsWF ∧
+    eval (.call "toDate" [.lit (.datetime (-1))]) emptyEnv = Spec.evaluate (.call "toDate" [.lit (.datetime (-1))]) emptyEnv := by
+  have hwf : emptyEnv.WF := ⟨by simp [emptyEnv, Value.WF], by simp [emptyEnv, Value.WF], by simp [emptyEnv, Value.WF],
       by simp [emptyEnv, Value.WF], by intro u d h; simp [emptyEnv, Entities.get] at h⟩
-  · simp [Expr.LitsWF, Expr.All, Expr.AllL, litOK, Value.WF, InI64, minI64, maxI64]
-  · simp [Expr.PatternsWF, Expr.All, Expr.AllL, patOK]
-  · rw [C01_toDate_counterexample.1, C01_toDate_counterexample.2]
-    intro h
-    rcases h with h | ⟨⟨k, hk⟩, _⟩
-    · simp at h
-    · cases hk
+  have hl : (Expr.call "toDate" [.lit (.datetime (-1))]).LitsWF := by
+    simp [Expr.LitsWF, Expr.All, Expr.AllL, litOK, Value.WF, InI64, minI64, maxI64]
+  have hp : (Expr.call "toDate" [.lit (.datetime (-1))]).PatternsWF := by
+    simp [Expr.PatternsWF, Expr.All, Expr.AllL, patOK]
+  have hv : eval (.call "toDate" [.lit (.datetime (-1))]) emptyEnv = .ok (.datetime (-86400000)) := by rfl
+  refine ⟨hwf, hl, hp, C01_eval_eq_spec_unless_type_error _ _ hwf hl hp ?_ ?_⟩ <;> rw [hv] <;> nofun
 
 /-! ### (7) Tie to the source -/
 
@@ -245,7 +253,7 @@ example : matchComps [⟨false, [97, 98]⟩, ⟨true, [99]⟩] [97, 98, 99, 100,
 
 /-- the hypotheses of the refinement theorem are satisfiable by a non-trivial state: a store with a
     parent link, and an expression using `in`, arithmetic, `like`, attribute access and `toDate` on a
-    non-negative datetime -/
+    NEGATIVE datetime that is not day-aligned (1969-12-31T23:59:59.999Z) -/
 def c01ExEnv : Env :=
   ⟨[(("User", "a"), ⟨[("Group", "g")], [("n", .long 5)], []⟩)], .entity "User" "a", .entity "Action" "v",
     .entity "Doc" "d", .record [("s", .str "abc")]⟩
@@ -254,12 +262,12 @@ def c01ExExpr : Expr :=
   .binop .and (.binop .in_ (.var .principal) (.lit (.entity "Group" "g")))
     (.binop .and (.binop .lt (.binop .mul (.access (.var .principal) "n") (.lit (.long 3))) (.lit (.long 100)))
       (.binop .and (.like (.access (.var .context) "s") [⟨false, [97]⟩, ⟨true, []⟩])
-        (.binop .eq (.call "toDate" [.lit (.datetime 86400001)]) (.lit (.datetime 86400000)))))
+        (.binop .eq (.call "toDate" [.lit (.datetime (-1))]) (.lit (.datetime (-86400000))))))
 
-example : c01ExEnv.WF ∧ c01ExExpr.LitsWF ∧ c01ExExpr.PatternsWF ∧ c01ExExpr.ToDateSafe c01ExEnv ∧
+example : c01ExEnv.WF ∧ c01ExExpr.LitsWF ∧ c01ExExpr.PatternsWF ∧
     (match eval c01ExExpr c01ExEnv with | .ok (.bool true) => true | _ => false) = true := by
   refine ⟨⟨by simp [c01ExEnv, Value.WF], by simp [c01ExEnv, Value.WF], by simp [c01ExEnv, Value.WF],
-      by simp [c01ExEnv, Value.WF, Value.WFKV], ?_⟩, ?_, ?_, ?_, by decide +kernel⟩
+      by simp [c01ExEnv, Value.WF, Value.WFKV], ?_⟩, ?_, ?_, by decide +kernel⟩
   · intro u d h
     simp only [c01ExEnv, Entities.get] at h
     split at h
@@ -268,11 +276,5 @@ example : c01ExEnv.WF ∧ c01ExExpr.LitsWF ∧ c01ExExpr.PatternsWF ∧ c01ExExp
   · simp [c01ExExpr, Expr.LitsWF, Expr.All, Expr.AllL, litOK, Value.WF, InI64, minI64, maxI64]
   · simp [c01ExExpr, Expr.PatternsWF, Expr.All, Expr.AllL, patOK]
     decide +kernel
-  · simp only [c01ExExpr, Expr.ToDateSafe, Expr.All, Expr.AllL, toDateSafeNode, and_true, true_and]
-    intro _ t ht
-    have : t = 86400001 := by
-      simp only [eval] at ht
-      cases ht; rfl
-    omega
 
 end CedarGo
